@@ -50,7 +50,9 @@ pub fn generate(family: &str, seed: u64, n: usize) -> Vec<String> {
             }
             while out.len() < n {
                 let seed = match rng.below(3) { 0 => rng.below(200), 1 => rng.next(), _ => rng.below(1 << 32) };
-                out.push(match rng.below(5) {
+                out.push(match rng.below(7) {
+                    5 => format!("rng unitq {} {}", seed, 1 + rng.below(100)),
+                    6 => format!("rng halfq {} {}", seed, 1 + rng.below(100)),
                     0 => format!("rng raw {} {}", seed, 1 + rng.below(200)),
                     1 => format!("rng index {} {} {}", seed, 1 + rng.below(100), 1 + match rng.below(3) { 0 => rng.below(12), 1 => rng.below(1000), _ => rng.next() >> rng.below(60) }),
                     2 => format!("rng range {} {}", seed, 1 + rng.below(100)),
